@@ -29,6 +29,8 @@ type item struct {
 	View int     `json:"view"`
 	Key  keySpec `json:"key"`
 	Val  uint64  `json:"val,omitempty"`
+	// Reuse: fill the key builder kept from the previous operation on this view instead of a fresh one
+	Reuse bool `json:"reuse,omitempty"`
 }
 
 type op struct {
@@ -38,6 +40,7 @@ type op struct {
 	Key   *keySpec `json:"key,omitempty"`
 	Val   uint64   `json:"val,omitempty"`
 	Items []item   `json:"items,omitempty"`
+	Reuse bool     `json:"reuse,omitempty"` // single-key operations: see item.Reuse
 	Obs   any      `json:"observed,omitempty"`
 }
 
@@ -244,12 +247,12 @@ func run(sc *scenario) (coq string, tags []string, err error) {
 		if longest > 500 { // pKey+cCols certainly beyond 512 bytes
 			tagset["long:key>512:"+o.Op] = true
 		}
+		inUse := map[int]bool{} // views whose kept builder already serves an item of this call
 		switch o.Op {
 		case "put":
 			v := sc.Views[o.View]
 			e := safely(func() error {
-				kb := vr.KeyBuilder(qn(vname(o.View)))
-				r.fill(kb, v, *o.Key)
+				kb := r.builder(vr, sc, o.View, o.WS, *o.Key, o.Reuse, inUse, tagset)
 				vb := vr.NewValueBuilder(qn(vname(o.View)))
 				vb.PutInt64("n", int64(o.Val))
 				return vr.Put(ws, kb, vb)
@@ -263,8 +266,7 @@ func run(sc *scenario) (coq string, tags []string, err error) {
 			e := safely(func() error {
 				var batch []istructs.ViewKV
 				for _, it := range o.Items {
-					kb := vr.KeyBuilder(qn(vname(it.View)))
-					r.fill(kb, sc.Views[it.View], it.Key)
+					kb := r.builder(vr, sc, it.View, o.WS, it.Key, it.Reuse, inUse, tagset)
 					vb := vr.NewValueBuilder(qn(vname(it.View)))
 					vb.PutInt64("n", int64(it.Val))
 					batch = append(batch, istructs.ViewKV{Key: kb, Value: vb})
@@ -288,8 +290,7 @@ func run(sc *scenario) (coq string, tags []string, err error) {
 			v := sc.Views[o.View]
 			var n uint64
 			e := safely(func() error {
-				kb := vr.KeyBuilder(qn(vname(o.View)))
-				r.fill(kb, v, *o.Key)
+				kb := r.builder(vr, sc, o.View, o.WS, *o.Key, o.Reuse, inUse, tagset)
 				val, err := vr.Get(ws, kb)
 				if err == nil {
 					n = uint64(val.AsInt64("n"))
@@ -306,9 +307,7 @@ func run(sc *scenario) (coq string, tags []string, err error) {
 			e := safely(func() error {
 				batch := make([]istructs.ViewRecordGetBatchItem, len(o.Items))
 				for i, it := range o.Items {
-					kb := vr.KeyBuilder(qn(vname(it.View)))
-					r.fill(kb, sc.Views[it.View], it.Key)
-					batch[i].Key = kb
+					batch[i].Key = r.builder(vr, sc, it.View, o.WS, it.Key, it.Reuse, inUse, tagset)
 				}
 				if err := vr.GetBatch(ws, batch); err != nil {
 					return err
@@ -346,8 +345,7 @@ func run(sc *scenario) (coq string, tags []string, err error) {
 			var rows []obsRow
 			var rterms []string
 			e := safely(func() error {
-				kb := vr.KeyBuilder(qn(vname(o.View)))
-				r.fill(kb, v, *o.Key)
+				kb := r.builder(vr, sc, o.View, o.WS, *o.Key, o.Reuse, inUse, tagset)
 				return vr.Read(context.Background(), ws, kb, func(key istructs.IKey, value istructs.IValue) error {
 					p, c, s := r.readBack(key, v)
 					n := uint64(value.AsInt64("n"))
@@ -409,6 +407,12 @@ func run(sc *scenario) (coq string, tags []string, err error) {
 		default:
 			return "", nil, fmt.Errorf("unknown op %q", o.Op)
 		}
+		// a builder that was refused (validation / constraint error) is not used again
+		if m, ok := o.Obs.(map[string]any); ok {
+			if c, _ := m["code"].(int); c == 1 || c == 9 {
+				r.kept = map[int]*keptBuilder{}
+			}
+		}
 	}
 	var vs []string
 	for i, v := range sc.Views {
@@ -435,4 +439,73 @@ func overread(k keySpec, r *rig, v viewSpec, rows []obsRow) bool {
 		}
 	}
 	return false
+}
+
+// keptBuilder: the key builder last used for a view, what it holds and where it was used
+type keptBuilder struct {
+	kb  istructs.IKeyBuilder
+	key keySpec
+	ws  uint64
+}
+
+// holds: every field set in old is set in k (a builder cannot un-set a fixed-size field, so the
+// builder is re-filled only when the new key gives a value for everything it already holds)
+func covers(k, old keySpec) bool {
+	for i, p := range old.P {
+		if p != nil && (i >= len(k.P) || k.P[i] == nil) {
+			return false
+		}
+	}
+	for i, p := range old.C {
+		if p != nil && (i >= len(k.C) || k.C[i] == nil) {
+			return false
+		}
+	}
+	return old.V == "" || k.V != ""
+}
+
+func sameVals(a, b []*uint64) bool {
+	if len(a) != len(b) {
+		return false
+	}
+	for i := range a {
+		if (a[i] == nil) != (b[i] == nil) || (a[i] != nil && *a[i] != *b[i]) {
+			return false
+		}
+	}
+	return true
+}
+
+// builder returns a key builder holding exactly the key k: the one kept for the view, re-filled
+// over its old values, when reuse is asked for and possible; a fresh one otherwise
+func (r *rig) builder(vr istructs.IViewRecords, sc *scenario, view int, ws uint64, k keySpec, reuse bool, inUse map[int]bool, tagset map[string]bool) istructs.IKeyBuilder {
+	v := sc.Views[view]
+	if old := r.kept[view]; reuse && old != nil && !inUse[view] && covers(k, old.key) {
+		inUse[view] = true
+		tagset["builder:reused"] = true
+		pk, cc := !sameVals(k.P, old.key.P), !sameVals(k.C, old.key.C) || k.V != old.key.V
+		switch {
+		case ws != old.ws:
+			tagset["builder:reused-other-ws"] = true
+		case pk && cc:
+			tagset["builder:reused-pk-and-cc-changed"] = true
+		case pk:
+			tagset["builder:reused-pk-changed"] = true
+		case cc:
+			tagset["builder:reused-cc-changed"] = true
+		default:
+			tagset["builder:reused-same-key"] = true
+		}
+		r.fill(old.kb, v, k)
+		old.key, old.ws = cloneKey(k), ws
+		return old.kb
+	}
+	kb := vr.KeyBuilder(qn(fmt.Sprintf("v%d", view)))
+	r.fill(kb, v, k)
+	if r.kept == nil {
+		r.kept = map[int]*keptBuilder{}
+	}
+	r.kept[view] = &keptBuilder{kb: kb, key: cloneKey(k), ws: ws}
+	inUse[view] = true
+	return kb
 }
